@@ -60,14 +60,15 @@ Variable D0 : bytes.
 Lemma plain_content b len st : b + len <= length m -> must_recode ext8 (sub m b len) = false -> good ext8 D0 st [] ->
   exists st' t c, send_plain m b len st = Ok st' /\ good ext8 D0 st' t /\
     outof st' ++ c = outof st ++ stuff (split_lines (sub m b len)) /\ closing c t /\
-    (open_line false (sub m b len) = false -> t = []).
+    (open_line false (sub m b len) = false -> t = []) /\
+    c = (if open_line false (sub m b len) then CRLF else []).
 Proof.
   intros Hw Hm Hg. destruct (plain_piece ext8 m b len D0 st Hw Hm Hg) as (st' & t & E & G & Ht).
   destruct (send_plain_ok m b len Hw st) as (st2 & E2 & Ho & Hz & Hnz). rewrite E in E2. inversion E2; subst st2.
   set (P := sub m b len) in *. fold (outof st') in Ho, Hnz. fold (outof st) in Ho.
   exists st', t, (if open_line false P then CRLF else []). split; [exact E|]. split; [exact G|]. split.
   - rewrite Ho, <- app_assoc. f_equal. apply (plain_enc_spec P false).
-  - split; [|exact Ht]. split; [destruct (open_line false P); auto|].
+  - split; [|split; [exact Ht|reflexivity]]. split; [destruct (open_line false P); auto|].
     destruct P as [|x r] eqn:EP.
     + cbn [open_line]. split; [intros _; apply Ht; reflexivity|reflexivity].
     + assert (Hne : plain_enc false (x :: r) <> []) by apply plain_enc_nonempty.
@@ -199,7 +200,7 @@ Proof.
     destruct Hr' as (t & W & c & Gt & Ht & Eo & (Hc & Hct) & HS). fold P in Ht. specialize (Ht HPe). subst t.
     assert (c = []) by (apply Hct; reflexivity). subst c. rewrite app_nil_r in Eo.
     split; [exact Gt|]. exists W. split; [exact Eo|]. split; [intros _; exact HS|discriminate].
-  - destruct (plain_content m ext8 D0 B (S q) st ltac:(lia) Em Hg) as (st1 & t & c & E & G & Eo & (Hc & Hct) & Ht).
+  - destruct (plain_content m ext8 D0 B (S q) st ltac:(lia) Em Hg) as (st1 & t & c & E & G & Eo & (Hc & Hct) & Ht & _).
     fold P in Eo, Ht. specialize (Ht (open_line_ends _ HPe)). subst t.
     assert (c = []) by (apply Hct; reflexivity). subst c. rewrite app_nil_r in Eo.
     unfold liftS. rewrite E. cbn [bind]. eexists. split; [reflexivity|]. split; [exact G|].
@@ -207,7 +208,7 @@ Proof.
 Qed.
 
 Lemma parts_content rec b len bnd bl : b + len <= length m -> bl = length bnd -> bnd_ok bnd ->
-  (forall b' len' st', b' + len' <= b + len -> len' < len -> good ext8 D0 st' [] -> WFE b' len' ->
+  (forall b' len' st', b' + len' <= b + len -> len' < len -> 1 <= len' -> good ext8 D0 st' [] -> WFE b' len' ->
      exists r, rec b' len' st' = Ok r /\ entc b' len' st' r) ->
   forall fuel2 off st, 1 <= off <= len -> len - off < fuel2 -> good ext8 D0 st [] -> WFP bnd (b + off) (len - off) ->
   exists r, parts_fix rec m ext8 b len bnd bl fuel2 off false st = Ok r /\ partsc bnd b len off st r.
@@ -234,7 +235,7 @@ Proof.
   assert (Hpw : must_recode ext8 (sub m (b + off) (S q)) = true -> WFE (b + off) (S q)).
   { inversion Hwf; subst; match goal with H : find_delim _ _ = Some ?q' |- _ => fold u in H; rewrite Hfd in H; inversion H; subst q' end; assumption. }
   destruct (part_content rec (b + off) (len - off) q bnd st HW Hd) as (r & Er & Hr'); [|exact Hg|exact Hpw|].
-  { intros G W'. apply Hrec; [lia|lia|exact G|exact W']. }
+  { intros G W'. apply Hrec; [lia|lia|lia|exact G|exact W']. }
   rewrite Er. destruct r as [u0 st1|why st1]; cbn [bindR]; [|eexists; split; [reflexivity|exact Hr']].
   destruct Hr' as (G1 & wp & Eo1 & Hwp1 & Hwp2).
   pose proof (lit_delim ext8 D0 bnd Hbnd st1 G1) as G2. set (st2 := wr (wr st1 S_DD) bnd) in *.
@@ -277,7 +278,7 @@ Proof.
       all: rewrite (sub_skipn m (b + off) (len - off) adv HW ltac:(unfold adv; lia)); fold u.
       all: rewrite <- Htp in Hclean; fold adv in Hclean.
       all: rewrite (clean_flags _ Hclean).
-      all: destruct (plain_content m ext8 D0 (b + off + adv) (len - off - adv) st4 ltac:(unfold adv; lia)) as (st5 & t5 & c5 & E5 & G5 & Eo5 & Hc5 & Ht5);
+      all: destruct (plain_content m ext8 D0 (b + off + adv) (len - off - adv) st4 ltac:(unfold adv; lia)) as (st5 & t5 & c5 & E5 & G5 & Eo5 & Hc5 & Ht5 & _);
         [rewrite (sub_skipn m (b + off) (len - off) adv HW ltac:(unfold adv; lia)); fold u; apply flags_any_none; apply clean_flags; exact Hclean|exact G4|].
       all: rewrite (sub_skipn m (b + off) (len - off) adv HW ltac:(unfold adv; lia)) in Eo5, Ht5; fold u in Eo5, Ht5.
       all: unfold liftS; rewrite E5; cbn [bind]; eexists; (split; [reflexivity|]).
@@ -314,6 +315,140 @@ Proof.
     fold u. rewrite <- Hbl. fold after.
     replace (b + off + (q + 3 + bl + tpad_len after)) with (b + (off + (q + 3 + bl) + tpad_len after)) by lia.
     replace (len - off - (q + 3 + bl + tpad_len after)) with (len - (off + (q + 3 + bl) + tpad_len after)) by lia. exact HP5.
+Qed.
+
+Lemma firstn_sub B L k : B + L <= length m -> k <= L -> firstn k (sub m B L) = sub m B k.
+Proof. intros Hw Hk. unfold sub. rewrite firstn_firstn. f_equal. lia. Qed.
+
+Lemma hview_det b len h ct cenc mp h' ob s l :
+  qh_view m b len = Ok (h, ct, cenc) -> is_multipart m (b + fst ct) (snd ct) = Ok mp ->
+  hview b len h' ob s l ->
+  h' = h /\ cenc = (s, l) /\ ((mp = MpNo /\ ob = None) \/ exists bs bl, mp = MpYes bs bl /\ ob = Some (sub m bs bl)).
+Proof.
+  intros Ev Emp (ct' & mp' & Ev' & Emp' & Hk). rewrite Ev in Ev'. inversion Ev'; subst.
+  rewrite Emp in Emp'. inversion Emp'; subst. auto.
+Qed.
+
+(** send_qp on a well-formed entity *)
+Theorem entity_content : forall fuel b len st, b + len <= length m -> len < fuel -> 1 <= len ->
+  good ext8 D0 st [] -> WFE b len ->
+  exists r, send_qp fuel m helo ext8 b len st = Ok r /\ entc b len st r.
+Proof.
+  induction fuel as [|fu IH]; intros b len st Hw Hf Hl Hg Hwf; [lia|].
+  rewrite send_qp_S. rewrite (need_recode_ok m b len Hw). cbn [bind].
+  destruct (Nat.eqb_spec len 0) as [|_]; [lia|]. cbv zeta.
+  set (W := sub m b len). set (rf := nr_fun W flags0 0 false). set (br := f8 rf || fline rf).
+  destruct (qp_header_spec m helo ext8 b len Hw Hl Hhelo D0 br st Hg) as (h0 & ct & cenc & rh & Ev & Erh & Hd). rewrite Erh.
+  destruct rh as [[h mp] st1|why st1]; cbn [bindR].
+  2: { eexists. split; [reflexivity|]. cbn [hdr_done] in Hd. subst st1. exists []. apply good_good0. exact Hg. }
+  destruct Hd as (Eh & Hh & Emp & Hbnd & (Hpos & Hkind) & H8 & Hlr & t & Gt & Ht & Hcok & Hcont). subst h0. fold W in Hlr, Ht.
+  destruct Hcont as (X1 & X2 & ch & Eo1 & Hch & Hcht & U1 & U2).
+  destruct cenc as [s l]. cbn [fst snd] in U1, U2.
+  destruct (Nat.ltb_spec len h) as [|_]; [lia|].
+  destruct Hkind as [->|(bs & bl & ->)]; cbn [mk_of cut_of] in Eo1, U1, U2.
+  - (* no multipart *)
+    assert (Hv : hview b len h None s l) by (exists ct, MpNo; split; [exact Ev|]; split; [exact Emp|left; auto]).
+    destruct (Nat.eq_dec h len) as [Ehl|Nhl].
+    + replace (len - h) with 0 by lia. unfold recode_qp, send_plain, liftS. cbn [Nat.eqb bind].
+      assert (Hres : exists r, (if br then Ok (Done tt st1) else Ok (Done tt st1)) = Ok r /\ entc b len st r).
+      { exists (Done tt st1). split; [destruct br; reflexivity|].
+        exists t, (X1 ++ (if br then MK helo else []) ++ (X2 ++ ch) ++ []), ch. split; [exact Gt|]. split; [intros He; apply Ht; right; exact He|].
+        split; [rewrite Eo1, app_nil_r, <- !app_assoc; reflexivity|]. split; [split; assumption|].
+        apply (es_single m ext8 (MK helo) hview b len h s l br X1 (X2 ++ ch) []); [exact Hv|split; assumption|].
+        replace (len - h) with 0 by lia. rewrite sub_0. unfold body_sent. destruct br; [apply qp_roundtrip_nil|reflexivity]. }
+      exact Hres.
+    + assert (Et : t = []) by (apply Ht; left; lia). subst t.
+      assert (Ech : ch = []) by (apply Hcht; reflexivity). subst ch. rewrite app_nil_r in U2.
+      destruct (entity_body m ext8 b len Hw Hl D0 h st1 [] Hbytes Hh Hlr Gt Ht) as (st2 & t2 & E2 & G2 & H2).
+      fold W in E2, H2. fold rf in E2. fold br in E2.
+      destruct (body_out m (b + h) (len - h) br st1 ltac:(lia) ltac:(lia) Hbytes) as (st2' & O & E2' & Ho & Hne & Hlf & Hbs).
+      rewrite E2 in E2'. inversion E2'; subst st2'. rewrite E2.
+      eexists. split; [reflexivity|].
+      exists t2, (X1 ++ (if br then MK helo else []) ++ X2 ++ (O ++ (if lastlf st2 then [] else CRLF))), (if lastlf st2 then [] else CRLF).
+      split; [exact G2|]. split; [exact H2|]. split; [rewrite Ho, Eo1, <- !app_assoc; reflexivity|]. split.
+      * pose proof (good_last_iff ext8 D0 st2 t2 O st1 G2 Ho Hne Gt) as Hiff. rewrite <- Hlf in Hiff.
+        split; [destruct (lastlf st2); auto|]. destruct (lastlf st2).
+        -- split; [intros _; apply Hiff; reflexivity|reflexivity].
+        -- split; [discriminate|]. intros Et. apply Hiff in Et. discriminate.
+      * apply (es_single m ext8 (MK helo) hview b len h s l br X1 X2 _); [exact Hv|split; assumption|exact Hbs].
+  - (* multipart *)
+    destruct (Hbnd bs bl eq_refl) as (Hbl & Hbin).
+    rewrite rdn_ok by exact Hbin. cbn [bind]. set (bnd := sub m bs bl).
+    assert (Hblen : bl = length bnd) by (unfold bnd; rewrite sub_length by lia; reflexivity).
+    assert (Hbok : bnd_ok bnd).
+    { split; [|rewrite <- Hblen; lia]. destruct (is_multipart_bchars m _ _ bs bl Emp) as (q & Hq).
+      apply Forall_sub_at; [exact Hbin|]. intros k Hk. apply (bchar_ok_range q). apply Hq. exact Hk. }
+    (* what well-formedness says about the body *)
+    assert (Hwfm : exists q0,
+              find_delim bnd (sub m (b + h) (len - h)) = Some q0 /\
+              clean (sub m (b + h) (S q0) ++ DD ++ bnd) = true /\
+              starts_dash (skipn (q0 + 3 + bl) (sub m (b + h) (len - h))) = false /\
+              q0 + 3 + bl + tpad_len (skipn (q0 + 3 + bl) (sub m (b + h) (len - h))) < len - h /\
+              WFP bnd (b + h + (q0 + 3 + bl + tpad_len (skipn (q0 + 3 + bl) (sub m (b + h) (len - h)))))
+                      (len - h - (q0 + 3 + bl + tpad_len (skipn (q0 + 3 + bl) (sub m (b + h) (len - h)))))).
+    { inversion Hwf as [b0 len0 h' s' l' Hv|b0 len0 h' bnd' s' l' q0 Hv Hfd Hcl Hsd Hle Hadv Hwp]; subst b0 len0.
+      - destruct (hview_det _ _ _ _ _ _ _ _ _ _ Ev Emp Hv) as (_ & _ & [(Hx & _)|(bs' & bl' & Hx & Hy)]); discriminate.
+      - destruct (hview_det _ _ _ _ _ _ _ _ _ _ Ev Emp Hv) as (-> & _ & [(Hx & _)|(bs' & bl' & Hx & Hy)]); [discriminate|].
+        inversion Hx; subst bs' bl'. assert (Eb : bnd' = bnd) by (inversion Hy; reflexivity). rewrite Eb in *. clear Eb Hy.
+        rewrite <- Hblen in Hsd, Hadv, Hwp.
+        exists q0. auto. }
+    destruct Hwfm as (q0 & Hfd & Hcl & Hsd & Hadv & Hwp).
+    set (u := sub m (b + h) (len - h)) in *.
+    assert (Hul : length u = len - h) by (unfold u; apply sub_length; lia).
+    assert (Hd : delim_at bnd u q0 = true).
+    { unfold find_delim in Hfd. pose proof (find_delim_from_spec bnd u (length u) 0 ltac:(intros; lia)) as Hs.
+      rewrite Hfd in Hs. apply Hs. }
+    destruct (delim_at_content _ _ _ Hd) as (Hr & He & Hpre & _). rewrite Hul in Hr. rewrite <- Hblen in Hr, Hpre.
+    rewrite (find_boundary_find_delim m (b + h) (len - h) bnd ltac:(lia) (bnd_no_eol bnd Hbok)). fold u. rewrite Hfd. cbn [bind].
+    rewrite <- Hblen. destruct (Nat.eqb_spec (q0 + 3 + bl) 0) as [|_]; [lia|].
+    assert (Et : t = []) by (apply Ht; left; lia). subst t.
+    assert (Ech : ch = []) by (apply Hcht; reflexivity). subst ch. rewrite app_nil_r in U2. cbn [app] in Eo1.
+    (* the preamble with the first delimiter *)
+    assert (EPRE : sub m (b + h) (q0 + 3 + bl) = sub m (b + h) (S q0) ++ DD ++ bnd).
+    { rewrite <- (firstn_sub (b + h) (len - h) (q0 + 3 + bl)) by lia. fold u. rewrite Hpre.
+      unfold u. rewrite firstn_sub by lia. reflexivity. }
+    rewrite (need_recode_ok m (b + h) (q0 + 3 + bl)) by lia. cbn [bind]. rewrite EPRE.
+    rewrite (clean_flags _ Hcl).
+    destruct (plain_content m ext8 D0 (b + h) (q0 + 3 + bl) st1 ltac:(lia)) as (st2 & t2 & c2 & E2 & G2 & Eo2 & Hc2 & _ & Ec2);
+      [rewrite EPRE; apply flags_any_none; apply clean_flags; exact Hcl|exact Gt|].
+    rewrite EPRE in Eo2, Ec2.
+    assert (Hopen : open_line false (sub m (b + h) (S q0) ++ DD ++ bnd) = true).
+    { assert (Hne : DD ++ bnd <> []) by discriminate.
+      destruct (sub m (b + h) (S q0) ++ DD ++ bnd) as [|x r] eqn:Ex; [destruct (sub m (b + h) (S q0)); discriminate|].
+      unfold open_line. rewrite <- Ex. rewrite ends_eol_app by exact Hne.
+      rewrite ends_eol_last by exact Hne. apply Bool.negb_true_iff.
+      assert (Hin : In (nth (length (DD ++ bnd) - 1) (DD ++ bnd) 0%N) (DD ++ bnd)) by (apply nth_In; cbn [length app DD]; lia).
+      revert Hin. generalize (nth (length (DD ++ bnd) - 1) (DD ++ bnd) 0%N). intros x0 Hin.
+      apply in_app_or in Hin as [Hin|Hin].
+      - destruct Hin as [<-|[<-|[]]]; reflexivity.
+      - apply (proj1 (Forall_forall _ _) (bnd_no_eol bnd Hbok)) in Hin. exact Hin. }
+    rewrite Hopen in Ec2. subst c2.
+    rewrite E2. cbn [bind]. cbv zeta.
+    rewrite (dash_is_starts b len h (q0 + 3 + bl) Hw ltac:(lia)). fold u. rewrite Hsd. cbn [bind].
+    destruct (Nat.ltb_spec len (h + (q0 + 3 + bl))) as [|_]; [lia|].
+    replace (b + (h + (q0 + 3 + bl))) with (b + h + (q0 + 3 + bl)) by lia.
+    replace (len - (h + (q0 + 3 + bl))) with (len - h - (q0 + 3 + bl)) by lia.
+    destruct (tpad_step (b + h) (len - h) (q0 + 3 + bl) ltac:(lia) ltac:(lia)) as (tp & Etp & Htp & Htl). fold u in Htp.
+    rewrite Etp. cbn [bind]. subst tp.
+    pose proof (lit_crlf ext8 D0 st2 t2 (good_good0 _ _ _ _ G2)) as G4. set (st4 := wr st2 CRLF) in *.
+    assert (Eo4 : outof st4 = outof st ++ X1 ++ X2 ++ stuff (split_lines (sub m (b + h) (S q0) ++ DD ++ bnd))).
+    { unfold st4. rewrite outof_wr, Eo2, Eo1, <- !app_assoc. reflexivity. }
+    set (adv := q0 + 3 + bl + tpad_len (skipn (q0 + 3 + bl) u)) in *.
+    destruct (parts_content (send_qp fu m helo ext8) b len bnd bl Hw Hblen Hbok) with (fuel2 := S len) (off := h + adv) (st := st4)
+      as (r & Er & Hr'); [|unfold adv; lia|lia|exact G4| |].
+    { intros b' len' st' H1 H2 H3 G' W'. apply IH; [lia|lia|exact H3|exact G'|exact W']. }
+    { replace (b + (h + adv)) with (b + h + adv) by lia. replace (len - (h + adv)) with (len - h - adv) by lia. exact Hwp. }
+    replace (h + (q0 + 3 + bl) + tpad_len (skipn (q0 + 3 + bl) u)) with (h + adv) by (unfold adv; lia).
+    exists r. split; [exact Er|]. destruct r as [u1 st5|why st5]; [|exact Hr'].
+    destruct Hr' as (t5 & W5 & c5 & G5 & Ht5 & Eo5 & Hc5 & HP5).
+    exists t5, (X1 ++ X2 ++ stuff (split_lines (sub m (b + h) (S q0) ++ DD ++ bnd)) ++ W5), c5.
+    split; [exact G5|]. split; [exact Ht5|]. split; [rewrite Eo5, Eo4, <- !app_assoc; reflexivity|]. split; [exact Hc5|].
+    apply (es_multi m ext8 (MK helo) hview b len h bnd s l X1 X2 q0 W5).
+    + exists ct, (MpYes bs bl). split; [exact Ev|]. split; [exact Emp|]. right. exists bs, bl. auto.
+    + split; assumption.
+    + exact Hfd.
+    + fold u. rewrite <- Hblen. fold adv.
+      replace (b + h + adv) with (b + (h + adv)) by lia. replace (len - h - adv) with (len - (h + adv)) by lia. exact HP5.
 Qed.
 
 End Walk.
